@@ -306,6 +306,105 @@ fn positions(rng: &mut Rng, n: usize, bench: bool) -> Vec<(String, Vec<String>)>
     out
 }
 
+/// a silent in-process run on the calling thread: (best move, score, nodes); the table is cleared first when `clear`
+fn quiet_search(board: &Board, depth: u8, clear: bool) -> (String, String, u64) {
+    if clear {
+        TRANSPOSITION_TABLE.write().unwrap().clear();
+    }
+    sv::CACHE_OFF.store(false, Ordering::Relaxed);
+    sv::STOP_AT_POLL.store(u64::MAX, Ordering::Relaxed);
+    *sv::RECORDER.lock().unwrap() = None;
+    let mut search = Search::new(board, Some(SearchLimits::new().depth(Some(depth))));
+    let _ = std::panic::catch_unwind(std::panic::AssertUnwindSafe(|| {
+        search.search(&SimpleEvaluator, Some(depth));
+    }));
+    sv::STOP_AT_POLL.store(0, Ordering::Relaxed);
+    (
+        sv::best_move(&search).map_or("-".to_string(), |m| m.to_notation()),
+        sv::best_score(&search).map_or("-".to_string(), |s| s.to_string()),
+        search.get_nodes(),
+    )
+}
+
+/// `--mode chain`: does anything survive from one search into the next one on the same thread although the cache is cleared?
+/// For a position A searched to depth d, every position B of A's tree at plies d-1 and d (all of them for d <= 2, a sample
+/// for d = 3) is searched right after A (cache cleared in between) and the result is compared with B searched after B itself.
+fn chain_mode(rng: &mut Rng, pos: &[(String, Vec<String>)], count: usize, maxdepth: u8, shard: usize, of: usize, arg_budget: u64) {
+    for (i, (fen, moves)) in pos.iter().take(count).enumerate() {
+        if i % of != shard {
+            continue;
+        }
+        let Some(a) = setup_board(fen, moves) else { continue };
+        let a = Board::from_fen(&render_fen(&a));
+        let afen = render_fen(&a);
+        for d in 1..=maxdepth.min(3) {
+            // the descendants at plies d-1 and d
+            let mut level: Vec<Board> = vec![a.clone()];
+            let mut cands: Vec<Board> = vec![];
+            for ply in 1..=d {
+                let mut next = vec![];
+                for b in &mut level {
+                    for m in b.get_legal_moves() {
+                        let mut c = b.clone();
+                        c.make_move(m);
+                        next.push(c);
+                    }
+                }
+                if next.len() > 1200 {
+                    // sample, keeping the order
+                    let keep = 1200usize;
+                    let mut picked = vec![];
+                    let n = next.len();
+                    for (k, c) in next.into_iter().enumerate() {
+                        if rng.below(n as u64) < keep as u64 || k + 40 >= n {
+                            picked.push(c);
+                        }
+                    }
+                    next = picked;
+                }
+                if ply + 1 >= d {
+                    cands.extend(next.iter().cloned());
+                }
+                level = next;
+            }
+            let mut pairs = 0u64;
+            let mut differing = vec![];
+            // an unbiased order, then as many pairs as a fixed budget of engine nodes pays for (deterministic: node counts are)
+            for i in (1..cands.len()).rev() {
+                let j = rng.below(i as u64 + 1) as usize;
+                cands.swap(i, j);
+            }
+            let budget: u64 = arg_budget;
+            let mut spent = 0u64;
+            println!("S calibration chain");
+            for b in &cands {
+                if spent > budget {
+                    break;
+                }
+                let mut bb = Board::from_fen(&render_fen(b));
+                if bb.get_legal_moves().is_empty() {
+                    continue;
+                }
+                let e = 1 + (pairs % 2) as u8;
+                let warm = quiet_search(&bb, e, true);
+                let reference = quiet_search(&bb, e, true);
+                let first = quiet_search(&a, d, true);
+                let got = quiet_search(&bb, e, true);
+                spent += warm.2 + reference.2 + first.2 + got.2;
+                pairs += 1;
+                if got != reference {
+                    differing.push((render_fen(&bb), e, reference, got));
+                }
+            }
+            println!("X calibration-end");
+            println!("D after=[{afen}] depth={d} pairs={pairs} differing={}", differing.len());
+            for (bfen, e, r, g) in differing.iter().take(3) {
+                println!("D! fen=[{bfen}] depth={e} after=[{afen}]:{d} alone={}:{}:{} after_other={}:{}:{}", r.0, r.1, r.2, g.0, g.1, g.2);
+            }
+        }
+    }
+}
+
 /// `--mode plain|off|budget|stop|keep|file` `--count N` `--maxdepth D` `--shard i --of n --seed S`
 pub fn search_stream(args: &[String]) {
     let mode = arg_str(args, "mode").unwrap_or_else(|| "plain".into());
@@ -324,6 +423,7 @@ pub fn search_stream(args: &[String]) {
         r
     };
     match mode.as_str() {
+        "chain" => chain_mode(&mut rng, &pos, count, maxdepth, shard, of, arg(args, "budget", 3_000_000)),
         "file" => {
             // one case per line: fen | moves | depth | nodes | stop | cache
             let path = arg_str(args, "cases").unwrap_or_default();
